@@ -7,7 +7,7 @@ CONSTANTS
   EnvBudget = 3
   EditBudget = 2
   AnnBudget = 2
-  EnvKinds = {"unready", "fail", "restart", "dup", "node"}
+  EnvKinds = {"unready", "fail", "restart", "lost", "dup", "node", "narrow"}
   FaultBudget = 0
   MaxPerNode = 4
   AgeCap = 3
